@@ -126,6 +126,19 @@ pub fn metric(t: &mut Tok) -> proto::Metric {
             lp
         })
         .collect();
+    // a sample object is often a template that gets re-labelled: for about half of the label sets (chosen by a function of the
+    // values, so that every run of a scenario does the same) the labels are first set to other values under the same names
+    if !lps.is_empty() && lps.iter().map(|lp| lp.get_value().len()).sum::<usize>() % 2 == 1 {
+        let tmp: Vec<proto::LabelPair> = lps
+            .iter()
+            .map(|lp| {
+                let mut x = lp.clone();
+                x.set_value(format!("{}~", lp.get_value()));
+                x
+            })
+            .collect();
+        m.set_label(tmp);
+    }
     m.set_label(lps);
     if let Some(v) = t.opt(|t| t.f64_opt()) {
         let mut g = proto::Gauge::default();
